@@ -95,6 +95,16 @@ CHECKS = {
     technique="Hook H2 pass budgets: for every program every cut point of value and degree propagation (0..fixpoint each, and the diagonal) is run on the real code; the union of all claims made at any cut is validated by the same TLA+ executor as C06/C07, and the 13 passes must complete on every truncated CFG",
     text="For each generated program the harness reads the number of passes to the fixpoint and re-runs SSA conversion with every budget pair on the grid {0..Bv} x unlimited, unlimited x {0..Bd} and the diagonal; every run must complete (all passes run on the truncated result) and every constant / degree claim and every CS0009 / CS0013 finding made at any cut point is checked by Semantics.tla in every execution. Claims are judged one by one, so the cut points of one program are validated together with the budgets of each claim remembered for the report.",
     note="The wall-clock time box itself is replaced by a pass counter (same place in the loop); smaller scopes than C06/C07 because of the budget grid."),
+ "C04": dict(
+    level="model_checking", design="§5 C04",
+    technique="TLA+ character model of files (Locations.tla: byte offsets, boundaries, line/column) used by TLC to validate every label recorded from the real code (LocationsTrace.tla); terminal line:col and SARIF regions compared with positions recomputed from the original bytes; label texts compared across meaning-preserving re-renderings",
+    text="Programs from the corpora and the generators of C08 / C10 / the micro-programs, plus syntax faults, unresolved includes, unclosed comments and sugar errors, are each rendered four ways (identity, multi-byte comment lines, CRLF, block comments of C05's shapes with tabs) and run in-process and through the real binary with SARIF. TLC accepts a record only if every label of every report names a file that was read, has start <= end inside the file on character boundaries, and every observed line/column (SARIF start and end of every location) equals the one recomputed from the character model. The line:col printed on the terminal must be the start of the first primary label; the text under each label must be the same modulo white space and comments in all renderings; identifiers quoted by a primary label's message must occur under the label.",
+    note="`Points at the construct the message is about` is checked through quoted identifiers and label shape here, and by exact statement / declaration spans in C08 and C10; SARIF results are paired with reports by (rule, message) in position order."),
+ "C18": dict(
+    level="model_checking", design="§5 C18",
+    technique="TLA+ enumeration of sugar uses with Ref's verdict class (Desugar.tla); for each use the sugared definition and its hand-written expansion are run through the real parser / desugarer / pipeline; AST walk for leftover sugar; findings compared",
+    text="Every use -- 10 expression forms (anonymous components with positional / named / reversed / mixed-operator inputs, with parameters, without inputs, parallel; tuple expressions) x 21 positions (assignment sides, declarations with initialisers, conditions, array indices on both sides, assert / log / return arguments, call arguments, template parameters, nested inputs, ternary arms, array literals, dimensions, loop conditions, statement position) and 14 tuple statement forms (with `_`, nested, anonymous outputs, length mismatch, var tuples, reversed operator) x template / function x inside / outside a loop -- must end in one of the outcomes Ref allows: no tuple / anonymous component / multi-substitution left in any definition after parse_files; functions rejected with an error; templates either rejected with an error and dropped or producing exactly the findings of the hand-written expansion; never a panic.",
+    note="Findings compared as multisets of (id, message and primary label messages with generated component names normalised, label counts). Two known findings (anonymous components in loop bodies)."),
 }
 
 NOT_YET = "check not built yet (work in progress; see DESIGN.md §8 for the order)"
